@@ -80,6 +80,16 @@ def solver_case(draw, shard):
                 case["penalty"][key] = [w if w > 0 else .5 for w in case["penalty"][key]]
         if "fit_intercept" in case["solver"]:
             case["solver"]["fit_intercept"] = False
+    if draw(st.integers(0, 4)) == 0 and fam != "QuadraticSVC":
+        # contrast (sum-to-zero) coding on a dyadic grid: every column sums to exactly zero in floating point
+        Xz = np.round(np.array(case["X"], float) * 2) / 2
+        if Xz.shape[0] >= 3:
+            Xz[-1, :] = -Xz[:-1, :].sum(axis=0)
+            for j in range(Xz.shape[1]):
+                if not Xz[:, j].any():
+                    Xz[0, j], Xz[1, j] = 1., -1.
+            case["X"] = Xz.tolist()
+            case["flags"] = case.get("flags", []) + ["zero-sum-cols"]
     case["init"] = None
     case["storage"] = "dense"
     return case
@@ -146,7 +156,11 @@ def check_case(case):
                              f"{name} on a {cont} container raises {type(o2.exc).__name__}: {str(o2.exc)[:200]!r} while the Fortran-dense container solves"))
             continue
         if st2 != "ok":
-            classes.append(f"not-converged:{cont}(inconclusive)")
+            if o2.w is not None and not np.all(np.isfinite(np.asarray(o2.w, float))):
+                viol.append(Viol(dict(sg, kind="non-finite-on-container"),
+                                 f"{name} on a {cont} container returns non-finite coefficients while the Fortran-dense container converges"))
+            else:
+                classes.append(f"not-converged:{cont}(inconclusive)")
             continue
         accepted += 1
         factor = 4. if name == "FISTA" else 2.
